@@ -106,6 +106,11 @@ where
     let total = n_discard + n_collect;
 
     for i in 0..total {
+        #[cfg(feature = "verif")]
+        crate::verif::sched(
+            "worker.step",
+            &[chain as *const M as usize as i64, i as i64, total as i64],
+        );
         let current_state = chain.step();
         tracker.step(current_state).map_err(|e| {
             let msg = format!(
@@ -117,6 +122,12 @@ where
         })?;
 
         let now = Instant::now();
+        #[cfg(feature = "verif")]
+        let now = if crate::verif::sched("worker.timer", &[i as i64, total as i64]) != 0 {
+            last + freq
+        } else {
+            now
+        };
         if (now >= last + freq) | (i == total - 1) {
             if let Err(e) = tx.send(tracker.stats()) {
                 eprintln!("Sending chain statistics failed: {e}");
@@ -131,6 +142,8 @@ where
         }
     }
 
+    #[cfg(feature = "verif")]
+    crate::verif::sched("worker.done", &[chain as *const M as usize as i64]);
     // TODO: Somehow save state of the chains and enable continuing runs
     Ok(out)
 }
@@ -228,6 +241,12 @@ where
 
         let progress_handle = thread::spawn(move || {
             let sleep_ms = Duration::from_millis(250);
+            #[cfg(feature = "verif")]
+            let sleep_ms = if crate::verif::sched_active() {
+                Duration::from_millis(0)
+            } else {
+                sleep_ms
+            };
             let timeout_ms = Duration::from_millis(0);
             let multi = MultiProgress::new();
 
@@ -256,6 +275,8 @@ where
             let mut total_progress;
 
             loop {
+                #[cfg(feature = "verif")]
+                crate::verif::sched("reporter.top", &[rxs.len() as i64]);
                 for (i, rx) in rxs.iter().enumerate() {
                     while let Ok(stats) = rx.recv_timeout(timeout_ms) {
                         most_recent[i] = Some(stats)
@@ -315,12 +336,20 @@ where
                 for i in to_remove.iter().rev() {
                     active.remove(*i);
                 }
+                #[cfg(feature = "verif")]
+                {
+                    let mut st: Vec<i64> = vec![n_finished as i64, next_active as i64];
+                    st.extend(active.iter().map(|(i, _)| *i as i64));
+                    crate::verif::sched("reporter.state", &st);
+                }
 
                 if n_finished >= most_recent.len() {
                     break;
                 }
                 std::thread::sleep(sleep_ms);
             }
+            #[cfg(feature = "verif")]
+            crate::verif::sched("reporter.exit", &[]);
         });
 
         let chain_sample: Vec<Array2<T>> = thread::scope(|s| {
